@@ -26,6 +26,12 @@ type Harness struct {
 	// everywhere, and return its decision record (used by engine E1q, which
 	// finds the enabled actions by quiescence detection instead).
 	RunOnce func(prefix []int) (x *Exec, obs string, violation string)
+	// TolerateDivergence: a replay whose enabled set differs from the recorded
+	// one (nondeterminism the harness does not own, e.g. Go map iteration
+	// inside the code under test) is counted, its subtree is not expanded and
+	// the run is reported as not exhaustive, instead of a hard error. The
+	// diverged execution is still a real execution and its oracle still counts.
+	TolerateDivergence bool
 }
 
 // Result summarises an exploration.
@@ -41,6 +47,8 @@ type Result struct {
 	Samples    [][]int
 	Err        string
 	Preempted  int // executions with at least one deviation
+	Diverged   int // tolerated replay divergences (see Harness.TolerateDivergence)
+	DivergedAt string
 }
 
 // Violation is one failing execution.
@@ -94,8 +102,20 @@ func (e *explorer) record(o outcome, prefixLen int) {
 	r := e.res
 	r.Executions++
 	x := o.x
-	if x.Diverged != "" && r.Err == "" {
-		r.Err = "replay divergence: " + x.Diverged
+	if x.Diverged != "" {
+		if e.h.TolerateDivergence {
+			r.Diverged++
+			r.Completed = false
+			if r.DivergedAt == "" {
+				var l []string
+				for _, p := range x.Points {
+					l = append(l, p.Label)
+				}
+				r.DivergedAt = x.Diverged + " :: " + strings.Join(l, " | ")
+			}
+		} else if r.Err == "" {
+			r.Err = "replay divergence: " + x.Diverged
+		}
 	}
 	if len(x.Points) > r.MaxPoints {
 		r.MaxPoints = len(x.Points)
@@ -171,8 +191,8 @@ func (e *explorer) explore(prefix []int, depth int) {
 		return
 	}
 	x := o.x
-	if x.Panic != "" {
-		return // the tail after a panic is not meaningful
+	if x.Panic != "" || x.Diverged != "" {
+		return // the tail after a panic / divergence is not meaningful
 	}
 	cost := 0
 	for i := 0; i < len(x.Points); i++ {
@@ -226,6 +246,10 @@ func merge(a, b *Result) {
 	a.Capped += b.Capped
 	a.Deadlocks += b.Deadlocks
 	a.Preempted += b.Preempted
+	a.Diverged += b.Diverged
+	if a.DivergedAt == "" {
+		a.DivergedAt = b.DivergedAt
+	}
 	if b.MaxPoints > a.MaxPoints {
 		a.MaxPoints = b.MaxPoints
 	}
